@@ -3,7 +3,7 @@
    entry for every simulator, the model from the empty table: the two are related by "every simulator has the same row". *)
 From Coq Require Import ZArith List Bool Arith.
 Import ListNotations.
-From MV Require Import Time.Spec Static.Build Static.Cycle Static.CycleP Gen.CycleFns Static.GenCycle.
+From MV Require Import Time.Spec Static.Build Static.Cycle Static.CycleP Static.CycleC Gen.CycleFns Static.GenCycle.
 
 Definition teqv (t t' : dtab) : Prop := forall s, aget_l s t = aget_l s t'.
 
@@ -99,3 +99,15 @@ Proof.
            (cyc_loop fuel ind (cyc_init ind) sims) as [[b|]|]; try contradiction; try reflexivity.
   rewrite (zero_self_eqv sims a b H). reflexivity.
 Qed.
+
+Lemma generated_reported_cycle_is_real : forall ind fuel sims path, ind = map (fun s => (s, aget_l s ind)) sims -> wk_indel ind = true ->
+  cycle_check_gen fuel sims (fun s => aget_l s ind) = CycRejected path ->
+  exists s d, hd_error path = Some s /\ last path 0%nat = s /\ walk_delay ind path = Some d /\ izero d = true /\ In s sims.
+Proof. intros ind fuel sims path Hn Hw H. rewrite (tie_cycle_check fuel ind sims Hn) in H. exact (rejected_path_is_zero_cycle_wk ind fuel sims path Hw H). Qed.
+
+Lemma generated_accepted_cycles_are_resolved : forall ind D sims fuel, ind = map (fun s => (s, aget_l s ind)) sims ->
+  wk_indel ind = true -> uni_indel D ind = true -> cov_indel ind sims = true ->
+  cycle_check_gen fuel sims (fun s => aget_l s ind) = CycAccepted ->
+  forall p s W, hd_error p = Some s -> last p 0%nat = s -> In s sims -> walk_delay ind p = Some W ->
+  izero W = false /\ all_zero ind p = false.
+Proof. intros ind D sims fuel Hn Hw Hu Hc H. rewrite (tie_cycle_check fuel ind sims Hn) in H. exact (accepted_cycles_are_resolved ind D sims fuel Hw Hu Hc H). Qed.
